@@ -342,6 +342,7 @@ impl Interp {
                 self.note_fresh(r, &what)?;
             }
         }
+        self.track_value(&exp);
         // effect on the module
         let ip = args.iter().find_map(|a| match a {
             ArgVal::InsertPoint(ip) => Some(*ip),
@@ -432,6 +433,24 @@ impl Interp {
             return Err(self.wrap(fail("selection-after", mm.mi.name.to_string(), format!("{} changed the selection {:?}/{:?} -> {:?}/{:?}", what, pre_f, pre_b, post_f, post_b))));
         }
         self.compare_module(&what)
+    }
+
+    /// R3 on the builder side: a result whose result type is a tracked type (or typed value)
+    /// is a typed value (literal width of OpSwitch cases on it)
+    fn track_value(&mut self, inst: &dr::Instruction) {
+        if let (Some(rt), Some(rid)) = (inst.result_type, inst.result_id) {
+            if crate::refclass::is_type(inst.class.opname) == crate::refclass::Tri::Yes {
+                return;
+            }
+            // only through declared int/float types: they precede every use in the assembled
+            // order, whereas a value used as "result type" may be assembled after its user
+            let w = self.env.lit_types.iter().find(|t| t.0 == rt).map(|t| t.1);
+            if let Some(w) = w {
+                if !self.env.typed_values.iter().any(|t| t.0 == rid) {
+                    self.env.typed_values.push((rid, w));
+                }
+            }
+        }
     }
 
     /// remember int/float type declarations and wide constants for later typed literals
@@ -753,6 +772,9 @@ pub fn c12_run(ctx: &Ctx) {
     run_regress(ctx, C12_SUBS);
     drive_enum(ctx, &C12_SUBS[0], 3);
     drive_random(ctx, &C12_SUBS[1], ctx.n(30_000, 1_500_000), 1500);
+    if !ctx.quick() && !ctx.failed() {
+        crate::fuzzing::drive_fuzz(ctx, "builder", 500_000);
+    }
 }
 
 pub fn c12_finish(ctx: &Ctx) -> i32 {
